@@ -61,6 +61,7 @@ type c03Shape struct {
 	Swap    bool // the application first serves with as many do-nothing middleware, which Handlers() then replaces by the real ones
 	Info    bool `json:",omitempty"` // handlers that write send an informational status (100+position) instead of 201+position
 	Sig     int  `json:",omitempty"` // >0: handlers that return nothing use, by position, the other handler types (func(http.ResponseWriter, *http.Request), http.HandlerFunc, a reflectively invoked func(Context, *http.Request)), shifted by Sig
+	Multi   bool `json:",omitempty"` // the route is registered through Routes with three method names given as separate leading strings
 	Wrap    bool `json:",omitempty"` // a HandlerWrapper (the identity) is configured before anything is registered
 	Head    bool `json:",omitempty"` // AutoHead is on and the request is a HEAD request (served by the chain registered alongside the GET route)
 }
@@ -74,7 +75,7 @@ func (s c03Shape) n() int {
 }
 
 func (s c03Shape) String() string {
-	return fmt.Sprintf("mw=%d group=%d route=%d action=%v flat=%v late=%v swap=%v autohead=%v informational-statuses=%v handler-types=%d handler-wrapper=%v", s.M, s.G, s.R, s.Action, s.Flat, s.Late, s.Swap, s.Head, s.Info, s.Sig, s.Wrap)
+	return fmt.Sprintf("mw=%d group=%d route=%d action=%v flat=%v late=%v swap=%v autohead=%v informational-statuses=%v handler-types=%d handler-wrapper=%v routes-with-three-method-strings=%v", s.M, s.G, s.R, s.Action, s.Flat, s.Late, s.Swap, s.Head, s.Info, s.Sig, s.Wrap, s.Multi)
 }
 
 type c03Ev struct {
@@ -211,6 +212,13 @@ func c03Build(s c03Shape, strMask int) *c03World {
 	for i := 0; i < s.R; i++ {
 		rh = append(rh, next())
 	}
+	get := func(path string, hs ...flamego.Handler) {
+		if s.Multi {
+			w.f.Routes(path, "GET", append([]flamego.Handler{"POST", "PUT"}, hs...)...)
+			return
+		}
+		w.f.Get(path, hs...)
+	}
 	// a sibling route registered right after the probed one, in the same scope, with a handler of its
 	// own: it must never show up in the probed route's chain (id 90 is no position of the chain)
 	sibling := func() {
@@ -218,17 +226,17 @@ func c03Build(s c03Shape, strMask int) *c03World {
 	}
 	switch {
 	case s.G == 0:
-		w.f.Get("/x", rh...)
+		get("/x", rh...)
 		sibling()
 		w.path = "/x"
 	case s.Flat:
-		w.f.Group("/g", func() { w.f.Get("/x", rh...); sibling() }, gh...)
+		w.f.Group("/g", func() { get("/x", rh...); sibling() }, gh...)
 		w.path = "/g/x"
 	default:
 		var nest func(d int)
 		nest = func(d int) {
 			if d == s.G {
-				w.f.Get("/x", rh...)
+				get("/x", rh...)
 				sibling()
 				return
 			}
@@ -523,6 +531,9 @@ func c03Shapes(maxN int, thorough bool) []c03Shape {
 						out = append(out, c03Shape{M: m, G: g, R: r, Action: act, Sig: 1}, c03Shape{M: m, G: g, R: r, Action: act, Sig: 2})
 						out = append(out, c03Shape{M: m, G: g, R: r, Action: act, Info: true})
 						out = append(out, c03Shape{M: m, G: g, R: r, Action: act, Wrap: true})
+						if r >= 1 {
+							out = append(out, c03Shape{M: m, G: g, R: r, Action: act, Multi: true})
+						}
 						out = append(out, c03Shape{M: m, G: g, R: r, Action: act, Head: true})
 						if g >= 2 {
 							out = append(out, c03Shape{M: m, G: g, R: r, Action: act, Flat: true, Head: true})
@@ -587,7 +598,7 @@ func c03Run(r *core.Run) {
 		}
 		var jobs []job
 		for _, s := range shapes {
-			base := !(s.Flat || s.Late || s.Swap || s.Head || s.Info || s.Sig > 0 || s.Wrap)
+			base := !(s.Flat || s.Late || s.Swap || s.Head || s.Info || s.Sig > 0 || s.Wrap || s.Multi)
 			if s.n() < pl.minN || (pl.which == 1 && !base) || (pl.which == 2 && base) {
 				continue
 			}
